@@ -431,6 +431,7 @@ func runClientProgram(elected bool, prog []int) (fs []fail) {
 
 // Run decides C18.
 func Run(rep *report.Report, tier string) {
+	guardRep = rep
 	maxLen, maxClient := 4, 5
 	if tier == "thorough" {
 		maxLen, maxClient = 5, 6
@@ -517,6 +518,9 @@ func Run(rep *report.Report, tier string) {
 	rep.Sample(map[string]any{"client": "elected primary, initial id 10", "program": []string{"AddEntry(nh1)", "UpdateElectionID(20,0)", "AddEntry(nh4, nh5)", "AddEntry(nh6.WithElectionID(77,0))"}})
 }
 
+// guardRep receives a violation when a case panics (see report.Guard).
+var guardRep *report.Report
+
 func par(items []int, f func(int)) {
 	var wg sync.WaitGroup
 	ch := make(chan int)
@@ -525,7 +529,7 @@ func par(items []int, f func(int)) {
 		go func() {
 			defer wg.Done()
 			for i := range ch {
-				f(i)
+				guardRep.Guard(fmt.Sprintf("case %d", i), map[string]any{"case_index": i}, func() { f(i) })
 			}
 		}()
 	}
